@@ -139,6 +139,9 @@ func checkC13(e *RunEnv) *CheckResult {
 	_ = ignFiles
 	spec := &Spec{
 		Seeds: []Seed{{"S0", seedS0()}, {"S1", seedS1()}, {"S5", seedS5()}, {"S1+siblings", append(seedS0(), Write("d/x", v1("d/x")), Write("d.c", v1("d.c")), Write("d0", v1("d0")), Write("d-x", v1("d-x")), Write("dd/k", v1("dd/k")), Run("add", "d", "d.c", "d0", "d-x", "dd"), Run("commit", "-m", "c1"))},
+			// a directory with two sub-directories followed by a sibling directory, edits and untracked files in the last one
+			{"two-subdirs-then-sibling", append(seedS0(), Write("lib/alpha/f", "f\n"), Write("lib/beta/g", "g\n"), Write("lib/gamma/h/i", "i\n"), Write("tools/t.txt", "t\n"), Write("zeta/z", "z\n"),
+				Run("add", "lib", "tools", "zeta"), Run("commit", "-m", "c1"), Write("tools/t.txt", "edited\n"), Write("tools/new.txt", "new\n"), Write("zeta/new", "new\n"), Write("lib/beta/new", "new\n"))},
 			{"S1+ignored-files-with-later-siblings", append(seedS1(), Write(".goitignore", "build/\n*.log\n"), Write("x.log", "l\n"), Write("y-later", "u\n"), Write("z-later/f", "u\n"), Write("sub/y.log", "l\n"), Write("sub/z-later", "u\n"), Write("build/o", "o\n"), Write("c-after-build", "u\n"))}},
 		Depth: e.pick(3, 5),
 		Steps: func(n *Node) []Step {
